@@ -34,7 +34,7 @@ package netpoll
 //@   ensures zcrok(r) && rpos(r.buf) == old(rpos(r.buf)) && r.buf.length >= old(r.buf.length) && fpos(r.buf) - old(fpos(r.buf)) == r.buf.length - old(r.buf.length)
 //@   ensures err == nil ==> r.buf.length >= n
 //@   ensures r.buf.length - old(r.buf.length) == produced - old(produced)
-//@   modifies r.buf.mallocSize, r.buf.write, r.buf.flush, r.buf.length, linkBufferNode.next, linkBufferNode.malloc, linkBufferNode.buf, linkBufferNode.refer, linkBufferNode.own, linkBufferNode.ord, linkBufferNode.sp, mem, pool, blknode, cacheown, cacheidx, produced
+//@   modifies r.buf.mallocSize, r.buf.write, r.buf.flush, r.buf.length, linkBufferNode.next, linkBufferNode.malloc, linkBufferNode.buf, linkBufferNode.refer, linkBufferNode.own, linkBufferNode.ord, linkBufferNode.sp, mem, pool, blknode, cacheown, cacheidx, cachesof, peekown, produced
 //@   loop 1 invariant zcrok(r) && rpos(r.buf) == old(rpos(r.buf)) && r.buf.length >= old(r.buf.length) && fpos(r.buf) - old(fpos(r.buf)) == r.buf.length - old(r.buf.length)
 //@   loop 1 invariant r.buf.length - old(r.buf.length) == produced - old(produced)
 
